@@ -382,6 +382,37 @@ def gen_lint_case(seed, idx, plain=False):
                 desc=dict(shape='fallback'))
 
 
+def gen_dup_field_case(seed, idx):
+    """several fields of the very same type, adjacent or with other bounded fields between them, in one struct or spread
+    over the variants of an enum; the repeated type has an elided (higher-ranked) lifetime, for which a predicate stated
+    twice is ambiguous (F40)"""
+    rng = random.Random(seed * 8000009 + idx)
+    hr = rng.choice(['fn(&T) -> bool', 'fn(&T)', '::std::rc::Rc<dyn Fn(&T) -> bool>', 'fn(&T, i8) -> ::core::option::Option<&T>',
+                     '::std::boxed::Box<fn(&T) -> i8>'])
+    others = ['::std::vec::Vec<T>', '::core::option::Option<T>', 'T', '(T, i8)', 'i8', '::core::marker::PhantomData<T>']
+    n = rng.randrange(3, 6)
+    tys = [hr, hr] + [rng.choice(others + [hr]) for _ in range(n - 2)]
+    rng.shuffle(tys)
+    traits = ['Clone']
+    if 'Rc<dyn' not in hr and rng.random() < 0.6:
+        traits.append('Debug')
+    if all(t in (hr, 'i8', 'T', '(T, i8)', '::core::option::Option<T>', '::core::marker::PhantomData<T>') for t in tys) and hr.startswith('fn') and rng.random() < 0.4:
+        traits.append('Copy')
+    rng.shuffle(traits)
+    head = f'#[derive_ex({", ".join(traits)})]' if rng.random() < 0.6 else f'#[derive(Ex)] #[derive_ex({", ".join(traits)})]'
+    if rng.random() < 0.6:
+        kind = rng.choice(['named', 'tuple'])
+        if kind == 'named':
+            item = f'{head}\npub struct X<T> {{ ' + ', '.join(f'pub f{i}: {t}' for i, t in enumerate(tys)) + ' }'
+        else:
+            item = f'{head}\npub struct X<T>(' + ', '.join(f'pub {t}' for t in tys) + ');'
+    else:
+        cut = rng.randrange(1, len(tys))
+        item = (f'{head}\npub enum X<T> {{ A(' + ', '.join(tys[:cut]) + '), B { ' + ', '.join(f'f{i}: {t}' for i, t in enumerate(tys[cut:])) + ' } }')
+    return dict(id=f'dup/{seed}/{idx}', item=item, src=PRELUDE + item + '\n', traits=traits,
+                desc=dict(shape='dup', repeated=hr, fields=len(tys)))
+
+
 def gen_lint_plain_case(seed, idx):
     """the same without helper attributes (C12: a drop-in for the standard derives, also in a crate that denies warnings)"""
     return gen_lint_case(seed, idx, plain=True)
